@@ -16,7 +16,6 @@ Sub-checks (signature field 'check'):
             the same floating point value; INF, -INF, NaN are spelled as DSP0201 requires
 """
 import itertools
-import math
 import re
 import struct
 import warnings
@@ -25,7 +24,7 @@ from datetime import datetime, timedelta, timezone, tzinfo
 import pywbem
 from pywbem import (CIMProperty, CIMQualifier, CIMParameter, CIMQualifierDeclaration,
                     CIMInstanceName, CIMClassName, CIMInstance, CIMClass, CIMDateTime,
-                    MinutesFromUTC, Char16, Real32, Real64)
+                    MinutesFromUTC, Char16, Real64)
 from pywbem import _cim_types
 from pywbem._cim_obj import cimvalue
 from pywbem._cim_types import atomic_to_cim_xml
@@ -58,12 +57,13 @@ BOUNDS = {
     'quick': {'int_values_per_type': 11, 'int_bases': [2, 8, 10, 16],
               'setter_atoms': 'all', 'setter_types': 16,
               'datetime_offsets_full_lattice': 41, 'datetime_offsets_reduced_lattice': 2000,
-              'datetime_object_offsets_full_lattice': 41, 'datetime_object_offsets_reduced_lattice': 2879,
+              'datetime_object_offsets_full_lattice': 45, 'datetime_object_offsets_reduced_lattice': 2879,
               'real_exponents': 'all (256 / 2048)', 'real_mantissa_patterns': 12},
     'thorough': {'int_values_per_type': 11, 'int_bases': [2, 8, 10, 16],
                  'setter_atoms': 'all', 'setter_types': 16,
                  'datetime_offsets_full_lattice': 2000, 'datetime_offsets_reduced_lattice': 2000,
-                 'datetime_object_offsets_full_lattice': 2879, 'datetime_object_offsets_reduced_lattice': 2879,
+                 'datetime_object_offsets_full_lattice': '2879 (MinutesFromUTC), 45 (datetime.timezone)',
+                 'datetime_object_offsets_reduced_lattice': 2879,
                  'real_exponents': 'all (256 / 2048)', 'real_mantissa_patterns': 12},
 }
 
@@ -219,8 +219,12 @@ def int_verdict(t, args, kwargs, expect):
     """-> (outcome, what|None, expected, observed)"""
     cls = D.INT_TYPES[t]
     lo, hi = D.INT_RANGE[t]
-    pargs = [int_arg(a) for a in args]
-    pkw = {k: int_arg(a) for k, a in kwargs.items()}
+    try:
+        pargs = [int_arg(a) for a in args]
+        pkw = {k: int_arg(a) for k, a in kwargs.items()}
+    except OK_EXC:
+        # pywbem itself refuses to build an argument object (generator precondition)
+        return 'argument-not-constructible', None, None, None
     try:
         r = cls(*pargs, **pkw)
     except OK_EXC as exc:
@@ -476,14 +480,25 @@ SEAMS_INFERRED = ('CIMProperty()', 'CIMQualifier()')
 
 
 def check_setter(atom, t, acc):
+    """all seams for one (value atom, type) pair. Every setter funnels into cimvalue(): a failure
+    that cimvalue() itself shows is reported once (seams='cimvalue'); a failure only some setters
+    show is reported with the list of those seams."""
+    try:
+        build_atom(atom)
+    except OK_EXC:
+        # pywbem itself refuses to build the input value (generator precondition)
+        acc.case(('set', t, D.key(atom)), nontrivial=False, outcome='setters:atom-not-constructible')
+        return
+    tt = t if t is not None else _inferred(atom)
     problems = {}        # what -> [(seam, observed)]
-    accepting = []       # seams that did not reject this (atom, type) pair
     for seam, fn in SEAMS:
-        if t is None and seam not in SEAMS_INFERRED:
+        if t is None and seam not in SEAMS_INFERRED and seam != 'cimvalue':
+            continue
+        if seam == 'cimvalue' and tt is None:
             continue
         v = build_atom(atom)
         try:
-            stored, otype = fn(v, t)
+            stored, otype = fn(v, tt if seam == 'cimvalue' else t)
         except OK_EXC as exc:
             acc.case(('set', seam, t, D.key(atom)), nontrivial=False,
                      outcome='setters:rejected:' + type(exc).__name__)
@@ -492,7 +507,6 @@ def check_setter(atom, t, acc):
             acc.case(('set', seam, t, D.key(atom)), outcome='setters:raised')
             problems.setdefault('raised:' + type(exc).__name__, []).append((seam, repr(exc)))
             continue
-        accepting.append(seam)
         what = stored_problem(stored, otype)
         acc.case(('set', seam, t, D.key(atom)),
                  outcome='setters:' + ('stored-null' if stored is None else what or 'stored-ok'),
@@ -502,18 +516,13 @@ def check_setter(atom, t, acc):
             problems.setdefault(what, []).append((seam, '%s stores %s' % (seam, show(stored))))
     for what in sorted(problems):
         seams = [s for s, _ in problems[what]]
-        # all seams funnel into cimvalue(); a failure in every seam that got that far is one cause,
-        # a failure in only some of them is a cause in those setters
-        if what.startswith('raised:'):
-            everywhere = len(seams) + len(accepting) > 0 and not accepting
+        if 'cimvalue' in seams:
+            sig = dict(check='setters', what=what, seams='cimvalue',
+                       tclass='any' if what == 'nested-list-stored' else tclass(tt))
         else:
-            everywhere = seams == accepting
-        acc.violation(dict(check='setters', what=what,
-                           tclass='any' if what == 'nested-list-stored' else
-                           tclass(t if t is not None else _inferred(atom)),
-                           seams='every-seam-reaching-cimvalue' if everywhere else '+'.join(seams)),
-                      dict(check='setters', atom=atom, type=t),
-                      'None, a value of CIM type %s (or a list of such), or TypeError/ValueError' % t,
+            sig = dict(check='setters', what=what, seams='+'.join(seams), tclass='any')
+        acc.violation(sig, dict(check='setters', atom=atom, type=t),
+                      'None, a value of CIM type %s (or a list of such), or TypeError/ValueError' % tt,
                       problems[what][0][1])
 
 
@@ -660,12 +669,15 @@ def object_inputs(tier):
             out.append(['pydt', f, None])
         small = offsets_small() + [-1439, -1000, 1000, 1439]
         wide = list(range(-1439, 1440))
+        sm = set(small)
         for kind in ('mfu', 'tz'):
+            # thorough: every offset on the full field lattice for MinutesFromUTC; for
+            # datetime.timezone (same arithmetic, other tzinfo class) as in the quick tier
+            all_on_full = tier == 'thorough' and kind == 'mfu'
             for f in full:
-                for o in (wide if tier == 'thorough' else small):
+                for o in (wide if all_on_full else small):
                     out.append(['pydt', f, [kind, o]])
-            if tier != 'thorough':
-                sm = set(small)
+            if not all_on_full:
                 for f in red:
                     for o in wide:
                         if o not in sm:
